@@ -68,6 +68,18 @@ pub struct SourceCfg {
 }
 
 impl SourceCfg {
+    /// Complexity rank used by the minimisers (candidates must be strictly simpler).
+    pub fn rank(&self) -> u8 {
+        if self.steps.is_empty() {
+            0
+        } else if !self.cycle && self.steps.len() == 1 && matches!(self.steps[0], Step::Deliver(_)) {
+            1
+        } else if self.cycle && self.steps == [Step::Deliver(1)] {
+            2
+        } else {
+            3
+        }
+    }
     pub fn one_shot() -> Self {
         SourceCfg {
             steps: vec![],
